@@ -52,6 +52,7 @@ structure HMon where
   judged : Bool := true       -- still inside the quantifier and not yet rejected
   prevKeys : List Nat := []
   hist : Hist := {}
+  origin : String := ""       -- "C10": a clone or an original that was cloned; "C08": a reloaded graph
 
 structure Reject where
   prop : String
@@ -348,10 +349,42 @@ def judgeLine (j : JSt) (lineNo : Nat) (opLine obsLine : String) : JSt :=
         let o := parseObs obsLine
         if m.judged ∧ (o.status ≠ "ok" ∨ o.keys ≠ m.prevKeys) then
           (j.setMon b { m with judged := false }).reject "C10" lineNo s!"clone shows {showNats o.keys}, original {showNats m.prevKeys}"
-        else j.setMon b m
+        else (j.setMon a { m with origin := "C10" }).setMon b { m with origin := "C10" }
       | none => j
     | _, _ => j
-  | ["observe", _] => j
+  | ["reload", a, b] =>
+    match parseHandle a, parseHandle b with
+    | some a, some b =>
+      match j.getMon a with
+      | some m =>
+        let o := parseObs obsLine
+        -- the reloaded graph: same content, allocator restarted, ids may be handed out again (C05 exempts reload)
+        let m' := { m with r := { m.r with pos := 0 }, hist := { m.hist with issued := [] }, origin := "C08" }
+        if m.judged ∧ (o.status ≠ "ok" ∨ o.keys ≠ m.prevKeys) then
+          (j.setMon b { m' with judged := false }).reject "C08" lineNo s!"reload answers '{obsLine}', original has {showNats m.prevKeys}"
+        else j.setMon b m'
+      | none => j
+    | _, _ => j
+  | ["save", _] => j
+  | ["loadcuts", a, _] =>
+    match (parseHandle a).bind j.getMon with
+    | some m =>
+      if m.judged then
+        match words obsLine with
+        | ["ok", _, _, bad] => if bad = "bad=[]" then j else j.reject "C09" lineNo s!"prefixes not rejected: {bad}"
+        | _ => j.reject "C09" lineNo s!"loadcuts answered '{obsLine}'"
+      else j
+    | none => j
+  | ["observe", a] =>
+    match (parseHandle a).bind j.getMon with
+    | some m =>
+      if m.judged ∧ m.origin ≠ "" then
+        let want := "ok " ++ " ".intercalate ((R.keys m.r m.cap).map (showEntryR m.r))
+        if obsLine.trimAscii.toString ≠ want.trimAscii.toString then
+          j.reject m.origin lineNo s!"observe shows '{obsLine}', expected '{want}'"
+        else j
+      else j
+    | none => j
   | "hex" :: _ | "label" :: _ =>
     let (pm, rej) := judgePure j.pm (words opLine) obsLine
     let j := { j with pm := pm }
@@ -377,6 +410,7 @@ def judgeLine (j : JSt) (lineNo : Nat) (opLine obsLine : String) : JSt :=
               | [("", _)] => { j with stats := { j.stats with invalidStops := j.stats.invalidStops + 1 } }
               | _ =>
                 let j := { j with stats := noteStats j.stats m op o ever }
+                let rej := if m.origin ≠ "" ∧ rej ≠ [] then rej ++ [(m.origin, (rej.headD ("", "")).2)] else rej
                 rej.foldl (fun j (p, msg) => j.reject p lineNo (opLine.trimAscii.toString ++ ": " ++ msg)) j
             let j := if o.status = "panic" then { j with stats := { j.stats with panics := j.stats.panics + 1 } } else j
             match op with
